@@ -4,8 +4,10 @@ correspondence: Model/RRule.lean (`construct`, `iter`) vs dateutil.rrule.rrule o
 oracle:         dateutil.rrule.rrule vs Spec/RRule.lean (`window`, `byOk`, `onGrid`) + intrinsic laws
 """
 import sys, datetime, signal, json, itertools
+import os
 import basecorr
 import vlib
+from props import c01_hist as H
 
 PROP = "C01"
 TRUSTED = [
@@ -20,17 +22,21 @@ TRUSTED = [
     "Easter in the spec is Spec.mjb (Meeus/Jones/Butcher), in the model the translated easter.easter (C19 proves them equal on 1583..4099)",
     "proved for the model: every table entry vs the calendar; masks = dates for every year; start/until/count/whole seconds and strict "
     "monotonicity for ALL rules and all seven frequencies; period day sets and advance of the calendar frequencies; the BY filter in calendar "
-    "terms; iter = Spec.occ for DAILY/WEEKLY/MONTHLY/YEARLY with BYMONTH/BYMONTHDAY/BYYEARDAY/plain BYDAY/BYHOUR/BYMINUTE/BYSECOND, BYSETPOS "
-    "(WEEKLY only with the start on the week start), MONTHLY / YEARLY nth weekdays, YEARLY BYEASTER (-80..250, 1583..4099), defaults, COUNT, UNTIL; every yielded value a valid datetime.  NOT proved (covered by correspondence + oracle only): exactness for HOURLY/MINUTELY/SECONDLY, "
-    "BYWEEKNO, BYEASTER outside YEARLY, nth BYDAY / BYEASTER mixed with BYMONTHDAY or plain BYDAY",
+    "terms; iter = Spec.occ for the 41 families of SupportedBy (all seven frequencies; BYWEEKNO outside D-C01c and BYEASTER outside D-C01d under every "
+    "frequency; nth weekdays alone and with BYWEEKNO / BYEASTER; MINUTELY / SECONDLY with every combination of BYHOUR / BYMINUTE / BYSECOND under decidable "
+    "reachability hypotheses); the constructed rule depends only on the member SETS of the BY lists; INTERVAL < 1 is a ValueError; interleaved iterators of one "
+    "object do not interfere on the model's state machine.  NOT proved (correspondence + oracle only): BYEASTER with BYWEEKNO below YEARLY, nth BYDAY + BYWEEKNO + "
+    "BYEASTER, nth mixed with plain BYDAY (D-C01a) and the other known-defect classes",
+    "one object / several iterators: the code is tied to the per-iterator state of the model by the AST audit c01_shared_state_sites.json (attributes "
+    "rrule._iter / _iterinfo read and write, where _iterinfo is built) and by the interleaved-history stream",
 ]
 ASSUMPTIONS = [
     "aware starts: the model carries tzinfo as an opaque tag; `until` is compared in the frame of dtstart.tzinfo "
     "(exact for the same tzinfo object and for fixed-offset zones, which is what the generators use)",
     "calendar.firstweekday() is pinned to 0 (wkst=None means Monday)",
     "datetime comparison / date.fromordinal / datetime.time range checks are CPython's (modelled in Base, tied by base.* ops)",
-    "outside the quantifier (not required): interval <= 0, empty BY tuples, members outside the RFC ranges, dtstart=None; these are "
-    "exercised by the correspondence only",
+    "outside the quantifier (not required): empty BY tuples, members outside the RFC ranges, dtstart=None; these are "
+    "exercised by the correspondence only.  INTERVAL < 1 must be refused by the constructor with ValueError (oracle class; fix D-C01-interval)",
     "an exception raised after the last representable instant of year 9999 counts as the end of the sequence",
 ]
 RULE = ("seeded rules over freq 0..6 x interval 1..400 (and large sub-daily intervals) x wkst None/0..6 x subsets of "
@@ -161,6 +167,8 @@ def gen_case(rng, malformed=False, freqs=None):
         else:
             c[k] = c.get(k, []) + [rng.choice(bad[k])]
         c["malformed"] = True
+    if rng.random() < 0.3:
+        respell(rng, c)
     # termination
     t = rng.random()
     if t < 0.33:
@@ -230,10 +238,95 @@ def kwargs_of(c):
             v = [(R.weekdays[w] if (c.get("scalars") and (w + n) % 2 == 0) else w) if n == 0 else R.weekdays[w](n) for w, n in v]
         else:
             v = list(v)
+        if c.get("bools") and k != "byweekday":
+            v = [bool(x) if x in (0, 1) else x for x in v]            # True == 1, False == 0: the same member
         if c.get("scalars") and len(v) == 1:
             v = v[0]
+        else:
+            v = _container(v, (c.get("container") or {}).get(k))
         kw[k] = v
     return kw
+
+
+def _container(v, how):
+    """the same members in another spelling of the argument: tuple / set / frozenset / a generator or iterator that can be
+    consumed only once / a dict's keys view"""
+    if how in (None, "list"):
+        return v
+    if how == "tuple":
+        return tuple(v)
+    if how == "gen":
+        return (x for x in v)
+    if how == "iter":
+        return iter(list(v))
+    if how == "set":
+        return set(v)
+    if how == "frozenset":
+        return frozenset(v)
+    if how == "keys":
+        return dict.fromkeys(v).keys()
+    return v
+
+
+CONTAINERS = ["list", "tuple", "gen", "iter", "set", "frozenset", "keys"]
+
+
+def respell(rng, c, p_key=0.6):
+    """repeat and shuffle the members of the BY lists of `c` (the lists in the case ARE the arguments: the model gets them
+    with the repetitions) and pick a container spelling per part"""
+    cont = {}
+    for k in BYKEYS:
+        l = c.get(k)
+        if not l or rng.random() >= p_key:
+            continue
+        l2 = list(l) + [rng.choice(l) for _ in range(rng.randint(1, 3))]
+        rng.shuffle(l2)
+        c[k] = l2
+        # bysetpos / byeaster are kept as given (tuple(bysetpos), tuple(sorted(byeaster))): only spellings that keep
+        # order and repetitions say the same thing there
+        cont[k] = rng.choice(CONTAINERS[:4] if k in ("bysetpos", "byeaster") else CONTAINERS)
+    if cont:
+        c["container"] = cont
+    if rng.random() < 0.25:
+        c["bools"] = True
+    return c
+
+
+def spelling_cases():
+    """EVERY BY part x every frequency with repeated + unsorted members, in every container spelling (and once with
+    BYSETPOS on top): the constructor normalises by SET (C01.construct_perm_dup_invariant), so the rule, and the strictly
+    increasing duplicate-free sequence, do not depend on the spelling"""
+    members = {"bymonth": [3, 11, 3], "bymonthday": [15, -1, 15, -1], "byyearday": [100, -100, 61, 100], "byweekno": [20, -10, 20, 9],
+               "byweekday": [[1, 0], [3, 0], [1, 0]], "byeaster": [1, -2, 1], "byhour": [17, 9, 17, 9], "byminute": [30, 0, 30],
+               "bysecond": [40, 10, 40, 10], "bysetpos": [1, -1, 1]}
+    out = []
+    i = 0
+    for freq in range(7):
+        for k in BYKEYS:
+            for extra in (None, "bysetpos", "nth"):
+                if extra == "bysetpos" and k == "bysetpos":
+                    continue
+                if extra == "nth" and not (k == "byweekday" and freq <= 1):
+                    continue
+                c = {"freq": freq, "interval": 1, "wkst": None, "dtstart": [2024, 3, 1, 9, 0, 10, 0], "kind": "naive", "n": 8,
+                     k: [list(x) if isinstance(x, list) else x for x in members[k]]}
+                if extra == "nth":
+                    c["byweekday"] = [[4, 1], [4, -1], [4, 1], [2, 2]]
+                if k == "bysetpos" or extra == "bysetpos":
+                    c["bysetpos"] = list(members["bysetpos"])
+                    if freq <= 2 and k in ("bysetpos", "byhour", "byminute", "bysecond"):
+                        c.setdefault("byweekday", [[0, 0], [2, 0], [4, 0]])
+                    if freq >= 3 and k not in ("byhour", "byminute", "bysecond"):
+                        c["bysecond"] = [50, 20, 50]            # several candidates per period for the positions to select from
+                if freq >= 5 and k in ("bymonth", "byyearday", "byweekno", "byeaster", "bymonthday"):
+                    c["interval"] = 3600 if freq == 5 else 86400 * 3 + 7           # reach the matching days within the work cap
+                cont = CONTAINERS[i % len(CONTAINERS)]
+                c["container"] = {kk: (cont if kk not in ("bysetpos", "byeaster") else CONTAINERS[i % 4]) for kk in BYKEYS if c.get(kk)}
+                if i % 5 == 0:
+                    c["bools"] = True
+                i += 1
+                out.append(c)
+    return out
 
 
 def build(c):
@@ -270,8 +363,12 @@ def wire(c):
     return " ".join(toks)
 
 
+RULEKEYS = ["freq", "interval", "wkst", "fwd", "wkst_obj", "count", "until", "dtstart", "kind", "n", "until_isdate", "until_othertz", "scalars",
+            "container", "bools", "text"]
+
+
 def canon(c):
-    return json.dumps({k: c.get(k) for k in ["freq", "interval", "wkst", "fwd", "wkst_obj", "count", "until", "dtstart", "kind", "n"] + BYKEYS}, sort_keys=True)
+    return json.dumps({k: c.get(k) for k in ["freq", "interval", "wkst", "fwd", "wkst_obj", "count", "until", "dtstart", "kind", "n", "container", "bools", "text"] + BYKEYS}, sort_keys=True)
 
 
 def item(x):
@@ -500,8 +597,21 @@ def classify(ctx, cases, tag):
 def correspondence(ctx):
     basecorr.run(ctx)
     __import__("rrgenlib").validate(ctx, sys.modules[__name__])     # translator tie (wt-trrule): Gen.* of Generated/RRuleKernels.lean vs the methods
+    # shared-state audit: rrule._iter / _iterinfo write no attribute of the rule object other than _len, read only what
+    # __init__ created, and build their iteration state (_iterinfo) locally — the model's `State` is per iterator
+    # (C01.interleaved_iterators_independent).  A new site is a broken correspondence; the history stream then runs
+    # with the thorough budget to find an interleaving on which two iterators of one object disagree.
+    new, gone = H.audit(ctx, os.environ.get("DATEUTIL_REPO", "/repo"))
+    if new or gone:
+        ctx.mismatch("shared-state audit (rrule._iter / _iterinfo / __init__ attribute sites vs c01_shared_state_sites.json)",
+                     "src/dateutil/rrule.py", "new: %s; removed: %s" % (new[:12], gone[:12]),
+                     "iteration state is local to the generator; the only attribute of the rule object an iteration writes is _len")
+        ctx.count("shared_state_sites_new_or_changed", len(new) + len(gone))
+        ctx.escalated = True
+        ctx.shared_state_changed = True
     cases = list(WITNESS_CASES) + gen_cases(ctx, "corr", ctx.budget(300, 5000), malformed_rate=0.15)
     cases += ambient_cases(ctx, "corr-ambient", ctx.budget(30, 600))
+    cases += spelling_cases() + interval_cases() + orbit_cases()
     reqs_c = ["rrule.construct " + wire(c) for c in cases]
     reqs_i = ["rrule.iter %s %d %d" % (wire(c), c["n"], FUEL[c["freq"]]) for c in cases]
     got_c = ctx.driver(reqs_c)
@@ -585,7 +695,7 @@ WITNESS_CASES = [
     {"freq": 0, "interval": 1, "wkst": None, "dtstart": [2032, 1, 1, 0, 0, 0, 0], "kind": "naive", "byeaster": [300], "n": 4},
     # former D-C01f (fixed in /repo 968ce74): BYWEEKNO with a start in year 1
     {"freq": 0, "interval": 1, "wkst": 2, "dtstart": [1, 12, 31, 0, 0, 0, 0], "kind": "naive", "byweekno": [26], "count": 1, "n": 3},
-    # D-C01g
+    # former D-C01g (withdrawn): empty set + ValueError at the first next() is allowed by the property
     {"freq": 5, "interval": 120, "wkst": None, "dtstart": [2024, 1, 1, 0, 0, 0, 0], "kind": "naive", "byhour": [1], "n": 3},
     {"freq": 6, "interval": 3600, "wkst": None, "dtstart": [2024, 1, 1, 0, 0, 0, 0], "kind": "naive", "byminute": [5], "count": 3, "n": 3},
     # D-C01e
@@ -606,6 +716,41 @@ def _safe(pred, v):
         return bool(pred(v))
     except Exception:
         return False
+
+
+def orbit_cases():
+    """rules whose next occurrence lies exactly ONE FULL ORBIT of the grid later (the only listed grid point is the start's own
+    time of day): the reachability loops of MINUTELY / SECONDLY and __mod_distance need every one of their passes — the bounds
+    1440 / gcd, 86400 / gcd, 24, 60 of the code are the bounds of the model's loops (`secondlyLoop_bhm`, `minutelyLoop_bm`,
+    `mod_distance_least`); one pass fewer and the rule would end in a ValueError"""
+    def c(freq, interval, hms, **kw):
+        d = {"freq": freq, "interval": interval, "wkst": None, "dtstart": [2024, 2, 27, hms[0], hms[1], hms[2], 0], "kind": "naive", "n": 4}
+        d.update(kw)
+        return d
+    out = [
+        c(6, 60, (9, 0, 0), byhour=[9], byminute=[0]), c(6, 3600, (9, 0, 0), byhour=[9]), c(6, 1, (9, 0, 0), byhour=[9], byminute=[0], bysecond=[0]),
+        c(6, 7200, (23, 59, 59), byhour=[23]), c(6, 86400, (9, 30, 15), byhour=[9], byminute=[30], bysecond=[15]),
+        c(6, 43200, (9, 30, 15), byhour=[9]), c(6, 90, (0, 0, 0), byhour=[0], byminute=[0]), c(6, 17, (5, 5, 5), byminute=[5], bysecond=[5], byhour=[5]),
+        c(5, 60, (9, 0, 0), byhour=[9]), c(5, 1, (9, 0, 0), byhour=[9], byminute=[0]), c(5, 1440, (9, 7, 0), byhour=[9], byminute=[7]),
+        c(5, 720, (9, 7, 0), byhour=[9]), c(5, 45, (12, 0, 0), byhour=[12], byminute=[0]), c(5, 7, (3, 3, 0), byhour=[3], byminute=[3]),
+        c(4, 1, (9, 0, 0), byhour=[9]), c(4, 24, (9, 0, 0), byhour=[9]), c(4, 5, (13, 0, 0), byhour=[13]), c(4, 16, (8, 0, 0), byhour=[8]),
+    ]
+    return out
+
+
+def interval_cases():
+    """INTERVAL < 1 (RFC 5545: a positive integer): every frequency x interval 0 / -1 / -2 / -30, bare and with BY parts,
+    COUNT and UNTIL: the constructor must raise ValueError (fix D-C01-interval); before the fix interval=0 yielded the start for
+    ever (duplicates; with UNTIL or a BY part that excludes the start the generator never returned) and interval < 0
+    yielded the start and then raised from date.fromordinal"""
+    out = []
+    for freq in range(7):
+        for iv in (0, -1, -2, -30):
+            for extra in ({}, {"count": 3}, {"until": [2024, 1, 20, 0, 0, 0, 0]}, {"bymonthday": [2]}, {"byhour": [10], "byweekday": [[1, 0]]}):
+                c = {"freq": freq, "interval": iv, "wkst": None, "dtstart": [2024, 1, 10, 9, 0, 0, 0], "kind": "naive", "n": 4}
+                c.update(extra)
+                out.append(c)
+    return out
 
 
 def sweep_cases(full):
@@ -650,9 +795,29 @@ def sweep_cases(full):
 
 
 def oracle(ctx):
+    if getattr(ctx, "shared_state_changed", False):
+        # the audit found iteration state outside the generator: look for a failing interleaving first
+        interleave_stream(ctx)
+        if len(unknown_violations(ctx)) >= 3:
+            ctx.note("oracle stopped after the interleaved-iterator histories: failing interleavings found")
+            return
     cases = [dict(c) for c in WITNESS_CASES]
     cases += [c for c in getattr(ctx, "corr_bad", [])]          # inputs on which model and implementation differed
     evaluate(ctx, cases)
+    # the small deterministic streams first: every BY part x every frequency with repeated / unsorted members in every
+    # container spelling; INTERVAL < 1
+    sp = spelling_cases()
+    ctx.count("oracle_spelling_cases", len(sp))
+    evaluate(ctx, sp)
+    iv = interval_cases()
+    ctx.count("oracle_interval_cases", len(iv))
+    evaluate(ctx, iv)
+    ob = orbit_cases()
+    ctx.count("oracle_orbit_cases", len(ob))
+    evaluate(ctx, ob)
+    if len(unknown_violations(ctx)) >= 3:
+        ctx.note("oracle stopped after the spelling / interval streams: failing inputs found")
+        return
     full = ctx.budget(0, 1) == 1
     sw = sweep_cases(full)
     ctx.count("oracle_sweep_cases", len(sw))
@@ -663,6 +828,8 @@ def oracle(ctx):
     amb = ambient_cases(ctx, "oracle-ambient", ctx.budget(40, 800))
     ctx.count("oracle_ambient_firstweekday_cases", len(amb))
     evaluate(ctx, amb)
+    if not getattr(ctx, "shared_state_changed", False):
+        interleave_stream(ctx)
     rng_cases = gen_cases(ctx, "oracle", ctx.budget(400, 6500))
     for i in range(0, len(rng_cases), 500):
         evaluate(ctx, rng_cases[i:i + 500])
@@ -679,6 +846,108 @@ def oracle(ctx):
     ctx.note("per-rule cap = %d executed source %s of dateutil/rrule.py (a function of the rule, not of the clock): "
              "%d of %d rule runs were cut off and compared on the prefix delivered so far; wall-clock failsafe hits: %d"
              % (WORKCAP, _CAP_KIND[0], ncap, nall, TIME_FAILSAFE[0]))
+
+
+HIST_SEEDS = [
+    # two iterators of one DAILY rule on both sides of a year end; nested loops over a YEARLY rule with several
+    # results per period; a query inside a loop; an rruleset holding the rule twice next to a plain iterator
+    ({"freq": 3, "interval": 1, "wkst": None, "dtstart": [2004, 12, 20, 9, 0, 0, 0], "kind": "naive", "n": 60},
+     [["new", 0], ["next", 0, 40], ["new", 1], ["next", 1, 1], ["next", 0, 3], ["next", 1, 20], ["next", 0, 3], ["next", 1, 3]]),
+    ({"freq": 0, "interval": 1, "wkst": None, "dtstart": [1997, 1, 1, 9, 0, 0, 0], "kind": "naive", "bymonth": [1, 3], "byweekday": [[1, 0], [3, 0]], "n": 60},
+     [["new", 0], ["next", 0, 3], ["new", 1], ["next", 1, 25], ["next", 0, 5], ["next", 1, 2], ["next", 0, 30]]),
+    ({"freq": 1, "interval": 1, "wkst": None, "dtstart": [2020, 1, 1, 9, 0, 0, 0], "kind": "naive", "byweekday": [[4, -1], [0, 1]], "n": 50},
+     [["new", 0], ["next", 0, 1], ["between", 20, 30, True, 0], ["next", 0, 3], ["getitem", 40], ["next", 0, 3], ["after", 30, 0, False], ["next", 0, 2]]),
+    ({"freq": 2, "interval": 2, "wkst": 6, "dtstart": [2019, 12, 1, 9, 0, 0, 0], "kind": "naive", "byweekday": [[1, 0], [6, 0]], "count": 40, "n": 45},
+     [["new", 0], ["next", 0, 5], ["setnew", 1], ["next", 1, 17], ["next", 0, 3], ["count"], ["next", 1, 3], ["next", 0, 30], ["next", 1, 30]]),
+    ({"freq": 0, "interval": 1, "wkst": None, "dtstart": [2000, 1, 1, 0, 0, 0, 0], "kind": "naive", "byeaster": [0, 1], "n": 30},
+     [["new", 0], ["next", 0, 1], ["new", 1], ["next", 1, 7], ["next", 0, 2], ["next", 1, 2], ["next", 0, 9]]),
+    ({"freq": 0, "interval": 1, "wkst": 0, "dtstart": [2008, 12, 1, 0, 0, 0, 0], "kind": "naive", "byweekno": [1, -1], "byweekday": [[0, 0], [6, 0]], "n": 30},
+     [["new", 0], ["next", 0, 2], ["new", 1], ["next", 1, 9], ["next", 0, 2], ["contains", 12, 0], ["next", 1, 2], ["next", 0, 9]]),
+]
+
+
+def _ref_run(c, nref):
+    """what a FRESH iterator over a separately built object delivers: (status, items)"""
+    st, items, r = run_impl(c, nref, work=4 * WORKCAP)
+    return st, items
+
+
+def run_hist_case(ctx, c, hist, tag):
+    """one history on one object; reports through `report`; returns False when skipped"""
+    nref = c["n"]
+    st, ref = _ref_run(c, nref)
+    if st not in ("more", "stop") or not ref:
+        ctx.count("hist_skipped_" + st.split("_")[0])
+        return False
+    _install_work_counter()
+    old = signal.signal(signal.SIGALRM, _alarm)
+    _WORK[0], _WORK[1] = 0, 40 * WORKCAP
+    res = None
+    try:
+        signal.setitimer(signal.ITIMER_REAL, 20.0)
+        try:
+            res = H.run_history(lambda: build(c), ref, st, hist)
+        except (_TurnCap, _Timeout):
+            ctx.count("hist_cap_skipped")
+            return False
+        except Exception as ex:
+            res = ("%s raised during an interleaved history although a fresh iterator delivers %d items without error"
+                   % (type(ex).__name__, len(ref)), {"exception": "%s: %s" % (type(ex).__name__, str(ex)[:200])})
+        finally:
+            signal.setitimer(signal.ITIMER_REAL, 0)
+    except _Timeout:
+        ctx.count("hist_cap_skipped")
+        return False
+    finally:
+        _WORK[1] = 1 << 62
+        signal.signal(signal.SIGALRM, old)
+    ctx.count("hist_cases")
+    ctx.count("hist_" + tag)
+    ctx.count("hist_events", len(hist))
+    ctx.count("hist_freq_%d" % c["freq"])
+    key = canon(c) + json.dumps(hist)
+    ctx.case(key)
+    if res is not None:
+        case = {"rule": {k: c.get(k) for k in RULEKEYS + BYKEYS},
+                "history": hist, "diff": {"kind": "interleaved"}}
+        ctx.violation(res[0], case, res[1])
+    return True
+
+
+def interleave_stream(ctx):
+    """ONE OBJECT, SEVERAL LIVE ITERATORS: see c01_hist.py"""
+    rng = ctx.subrng("interleave")
+    for c, hist in HIST_SEEDS:
+        run_hist_case(ctx, dict(c), hist, "seed")
+    n = ctx.budget(70, 300)
+    done = 0
+    tries = 0
+    while done < n and tries < 3 * n:
+        tries += 1
+        c = gen_case(rng)
+        plan_until(c, rng)
+        if rng.random() < 0.5:
+            # starts shortly before a year end, so that iterators of a sub-yearly rule soon sit in different years
+            y = c["dtstart"][0]
+            c["dtstart"][1:3] = [12, rng.choice([1, 15, 20, 28, 31])] if c["freq"] >= 1 else c["dtstart"][1:3]
+            if c.get("until") is not None and rng.random() < 0.7:
+                c.pop("until"); c.pop("until_isdate", None); c.pop("until_othertz", None)
+        c["n"] = rng.choice([30, 60, 60, 120, 120, 450])
+        if c["freq"] >= 4 and c["interval"] < 200 and rng.random() < 0.6:
+            c["interval"] = c["interval"] * rng.choice([7, 24, 60, 1440])        # sub-daily rules that do cross days
+        st, ref = _ref_run(c, c["n"])
+        if st not in ("more", "stop") or not ref:
+            continue
+        finite = st == "stop"
+        hist = H.gen_history(rng, len(ref), finite)
+        if run_hist_case(ctx, c, hist, "generated"):
+            done += 1
+        if len(unknown_violations(ctx)) >= 3:
+            break
+    ctx.note("interleaved-iterator histories: %d run (%d events) on one uncached rule object each, 2-4 live iterators + between/after/"
+             "before/count/indexing/slicing/in + an rruleset holding the rule twice; every iterator and query compared with the "
+             "sequence of a fresh iterator over a separately built object"
+             % (ctx.hist.get("hist_cases", 0), ctx.hist.get("hist_events", 0)))
 
 
 def report(ctx, what, case, detail=None):
@@ -731,6 +1000,21 @@ def evaluate(ctx, cases):
 
 
 def _evaluate(ctx, cases, pending):
+    bad_iv = [c for c in cases if c["interval"] < 1]
+    cases = [c for c in cases if c["interval"] >= 1]
+    for c in bad_iv:
+        # "a rule that can never match either raises ValueError (when built or when first iterated) or yields nothing": for
+        # INTERVAL < 1 there is no period grid at all; the constructor must refuse it
+        st, items, r = run_impl(c, c["n"], work=20000, failsafe=3.0)
+        ctx.case(canon(c), nontrivial=False)
+        ctx.count("oracle_interval_" + st.split("_")[0])
+        if st != "ctor_ValueError":
+            case = {"rule": {k: c.get(k) for k in RULEKEYS + BYKEYS}, "diff": {"kind": "interval", "status": st}}
+            pending.append(("INTERVAL=%d accepted by the constructor (%s, first items %s); RFC 5545 requires a positive integer and "
+                            "the property a ValueError or an empty sequence" % (c["interval"], st, [item(x) for x in items[:3]]),
+                            case, {}, c, st, items))
+    if not cases:
+        return
     classify(ctx, cases, "oracle")
     runs = []
     for c in cases:
@@ -774,7 +1058,7 @@ def _evaluate(ctx, cases, pending):
             if c.get(k) is not None:
                 ctx.count("oracle_has_" + k)
         ctx.count("oracle_kind_" + c["kind"])
-        case = {"rule": {k: c.get(k) for k in ["freq", "interval", "wkst", "fwd", "wkst_obj", "count", "until", "dtstart", "kind", "n", "until_isdate", "until_othertz", "scalars"] + BYKEYS}}
+        case = {"rule": {k: c.get(k) for k in RULEKEYS + BYKEYS}}
         start = DTm(*c["dtstart"][:6])
         # intrinsic laws on whatever was yielded
         tzi = dtstart_obj(c).tzinfo if c["kind"] != "date" else None
@@ -822,11 +1106,11 @@ def _evaluate(ctx, cases, pending):
                               dict(case, diff={"kind": "exception", "exc": kind, "spec": S[0] if S else None}), None)
             elif S:
                 pend("ValueError although the rule matches %s" % S[0], dict(case, diff={"kind": "exception", "exc": kind, "spec": S[0]}), None)
-            elif st.startswith("err_") and c["freq"] >= 5:
-                # the constructor accepted the rule, the recurrence set is empty, and the generator raises instead of stopping
+            elif st.startswith("err_"):
+                # the constructor accepted the rule, the recurrence set is empty (over the checked window), and the FIRST next()
+                # raises ValueError: the property allows exactly this ("raises ValueError (when built or when first
+                # iterated) or yields nothing").  Former finding D-C01g (withdrawn: a false alarm of this oracle).
                 ctx.count("oracle_valueerror_while_iterating_and_spec_empty")
-                pend("ValueError raised by the first iteration although the rule is valid and its recurrence set is empty",
-                     dict(case, diff={"kind": "exception-empty", "exc": kind, "spec": None}), None)
             else:
                 ctx.count("oracle_valueerror_and_spec_empty")
             continue
@@ -924,13 +1208,7 @@ def k_c01e(v):
     return False
 
 
-def k_c01g(v):
-    r, d = _rule(v), _diff(v)
-    above = r.get("byhour") is not None or (r["freq"] == 6 and r.get("byminute") is not None)
-    return r["freq"] in (5, 6) and above and d.get("kind") == "exception-empty" and d.get("exc") == "ValueError"
-
-
-CLASS = {"D-C01a": k_c01a, "D-C01c": k_c01c, "D-C01d": k_c01d, "D-C01e": k_c01e, "D-C01g": k_c01g}
+CLASS = {"D-C01a": k_c01a, "D-C01c": k_c01c, "D-C01d": k_c01d, "D-C01e": k_c01e}
 
 
 def _known(pred):
@@ -944,7 +1222,10 @@ KNOWN = {k: _known(p) for k, p in CLASS.items()}
 def replay(ctx, payload):
     c = dict(payload["violation"]["case"]["rule"])
     before = len(ctx.violations)
-    evaluate(ctx, [c])
+    if payload["violation"]["case"].get("history") is not None:
+        run_hist_case(ctx, c, payload["violation"]["case"]["history"], "replay")
+    else:
+        evaluate(ctx, [c])
     new = ctx.violations[before:]
     for v in new:
         print("still failing:", v["what"])
